@@ -8,7 +8,7 @@ from core import Result, Infra
 
 TIERS = {'quick': 1, 'thorough': 12}
 # thorough multipliers per property (cases are more expensive for some checks)
-THOROUGH = {'C08': 6, 'C11': 5, 'C12': 6, 'C13': 2, 'C14': 3, 'C15': 6, 'C17': 5, 'C20': 6}
+THOROUGH = {'C02': 4, 'C03': 4, 'C08': 6, 'C11': 5, 'C12': 6, 'C13': 2, 'C14': 3, 'C15': 6, 'C17': 5, 'C20': 6}
 _CURRENT = [None]
 
 def budget(tier, quick_n):
@@ -147,11 +147,25 @@ def load_or_fail(ex, cid, D, **kw):
         ex.fail(cid, D, ['loading a consistent input raised %s: %s' % (type(e).__name__, e)], call='Ham(...)')
     return h
 
+def dataset_stream(ex, n, exhaustive):
+    """random datasets, preceded (thorough tier of C02/C03) by this shard's slice of the bounded-exhaustive space:
+    every recoverable single-family history with <= 2 two-copy duplications on every tree shape with <= 5 leaves"""
+    if exhaustive:
+        k, shards = [int(x) for x in os.environ.get('VERIF_SHARD', '0/1').split('/')]
+        for i, D in enumerate(gen.exhaustive_datasets(5, 2, naming='own')):
+            if i % shards == k:
+                if i % 2:
+                    D.naming = 'synth'
+                    D.groups = [g for p, l, _ in D.families for g in gen.encode(D.T, D.naming, p, l)]
+                ex.res.count('exhaustive_small_histories')
+                yield D
+    for _ in range(n):
+        yield respell(ex.rng, std_dataset(ex.rng))
+
 def explore_load(prop, tier, seed, oracle, tags, n_quick, emit=(), with_truth=False, pyobs=None):
     ex = Explorer(prop, tier, seed)
     n = budget(tier, n_quick)
-    for k in range(n):
-        D = respell(ex.rng, std_dataset(ex.rng))
+    for k, D in enumerate(dataset_stream(ex, n, tier == 'thorough' and prop in ('C02', 'C03'))):
         cid = '%s-%d' % (prop, k)
         ex.note_dataset(D)
         h = load_or_fail(ex, cid, D)
@@ -503,7 +517,11 @@ def c12(tier, seed):
         d = core.diff_tags(pytags, L, ['ixml'])
         if d:
             ex.res.count('warn_ixml_spelling_differs')
-        return []
+        # echo of the round-trip theorem's ingredients on every exported HOG: export = encode(spell), wfh,
+        # recoverable, the stripped HOG realises the spelling
+        badsp = [x for x in L.get('ispell', []) if not x.endswith('|11111')]
+        ex.res.count('compared_ispell', len(L.get('ispell', [])))
+        return [('model-export-spelling', [], badsp[:3])] if badsp else []
     ex.finish(custom)
     ex.close()
     return ex.res
